@@ -152,15 +152,39 @@ def check_line_expansion(chk, ix):
         chk.ok("L3", {"make_line_data_for": "returns sorted line data"}, nontrivial_key="sorted")
     else:
         _fail(chk, "L3", mk, "line data not sorted", "make_line_data_for does not return sorted line data: bisect on the keys is meaningless")
+    # which entity a line addresses: the last one that starts at or before the line (the first one for lines before it) -
+    # select_run_item_by_line evaluated on a concrete line database (bisect is the stdlib's)
     sel = dbc.lookup("select_run_item_by_line")
-    chk.instance("L3")
-    uses = [n for n in ast.walk(sel.node) if isinstance(n, ast.Call) and unparse(n.func).split(".")[-1].startswith("bisect")]
-    ok = bool(uses) and all("_line_numbers" in unparse(u.args[0]) for u in uses) and any(
-        isinstance(n, ast.Assign) and "_line_numbers" in unparse(n.targets[0]) and "self.data" in unparse(n.value) for n in ast.walk(sel.node))
-    if ok:
-        chk.ok("L3", {"bisect_on": "keys of the (sorted) line data"}, nontrivial_key="bisect keys")
-    else:
-        _fail(chk, "L3", sel, "bisect keys", "bisect is not applied to the keys of the sorted line data")
+    if sel is None:
+        raise AnalysisError("anchor missing: FeatureLineDatabase.select_run_item_by_line")
+    starts = [(0, "feature"), (3, "scenario@3"), (10, "outline@10"), (14, "row@14"), (15, "row@15"), (20, "scenario@20")]
+    for line in (-1, 0, 1, 2, 3, 4, 9, 10, 13, 14, 15, 16, 19, 20, 21, 99):
+        it = Interp(ix, name="select_run_item_by_line")
+        it.int_sat = 100000
+        it.list_cap = 1000
+        st = State()
+        st.frames = []
+        data = st.alloc(HObj("dict", kind="dict", items=list(starts), label="line data"))
+        db = st.alloc(HObj(dbc, {"data": data, "_line_numbers": None, "_line_entities": None}, label="line db"))
+        want = [name for (ln, name) in starts if ln <= line][-1:] or [starts[0][1]]
+        try:
+            got = []
+            cur = st
+            for _round in (1, 2):        # asked twice: the cached index gives the same answer
+                outs = it.call_function(cur, sel, [line], {}, None, self_val=db)
+                if len(outs) != 1 or outs[0][1] != "val":
+                    raise AnalysisError("select_run_item_by_line(%d) not foldable: %r" % (line, [(k, v) for _, k, v in outs][:3]))
+                cur = outs[0][0]
+                got.append(outs[0][2])
+        except AnalysisError as e:
+            raise AnalysisError("select_run_item_by_line(%d) not foldable: %s" % (line, e))
+        chk.absorb(it)
+        chk.instance("L3")
+        if got == want * 2:
+            chk.ok("L3", {"line": line, "addresses": want[0]}, nontrivial_key=("line", line))
+        else:
+            _fail(chk, "L3", sel, "line %d -> %r" % (line, got), "in a file whose entities start at the lines %s, line %d addresses %r (asked twice); "
+                  "expected %r: the last entity that starts at or before the line" % ([ln for ln, _ in starts], line, got, want[0]))
 
 
 def check_location_parsing(chk, ix):
